@@ -12,6 +12,9 @@
 (*   msg            a request received by the server on the current stream  *)
 (*   sendErr        a Send that failed because the stream is broken         *)
 (*   fail           the server breaks the current stream                    *)
+(*   silent         the current stream goes silent (nothing errors)         *)
+(*   sendLost       a Send that completed without reaching the server       *)
+(*   detect         the transport reports the silent stream as broken       *)
 (*   settled        the harness found the client at rest on an established  *)
 (*                  stream                                                  *)
 (*   stuck          the harness gave up waiting for the client              *)
@@ -33,7 +36,7 @@ ToSet(q) == {q[i] : i \in 1..Len(q)}
 
 TraceSvcs ==
   TLCEval(UNION {IF TraceLog[i].ev \in {"call"} THEN {TraceLog[i].s}
-                 ELSE IF TraceLog[i].ev \in {"msg", "sendErr", "sendReq"}
+                 ELSE IF TraceLog[i].ev \in {"msg", "sendErr", "sendReq", "sendLost"}
                         THEN ToSet(TraceLog[i].sub) \cup ToSet(TraceLog[i].unsub)
                         ELSE {} : i \in 1..Len(TraceLog)})
 
@@ -56,7 +59,7 @@ Reset ==
   /\ subscribed' = {} /\ subCh' = <<>> /\ unsubCh' = <<>> /\ lock' = "free"
   /\ caller' = "idle" /\ cop' = <<"none", "none">> /\ ops' = 0 /\ deps' = {}
   /\ run' = "newStream" /\ rcv' = "off" /\ snap' = {} /\ batchS' = {} /\ batchU' = {}
-  /\ up' = FALSE /\ srv' = {} /\ fails' = 0 /\ amb' = {}
+  /\ up' = FALSE /\ silent' = FALSE /\ srv' = {} /\ fails' = 0 /\ amb' = {}
   /\ inCall' = FALSE /\ nsSeen' = FALSE
 
 Event(e) ==
@@ -73,7 +76,7 @@ Event(e) ==
      /\ \/ run = "resubSend" /\ snap = ToSet(e.sub) /\ e.unsub = <<>>
         \/ run = "sendSend" /\ batchS = ToSet(e.sub) /\ batchU = ToSet(e.unsub)
      /\ UNCHANGED <<vars, inCall, nsSeen, verdicts>>
-  \/ /\ e.ev = "msg" /\ up
+  \/ /\ e.ev = "msg" /\ up /\ ~silent
      /\ \/ ResubSend /\ snap = ToSet(e.sub) /\ e.unsub = <<>>
         \/ SenderSend /\ batchS = ToSet(e.sub) /\ batchU = ToSet(e.unsub)
      /\ UNCHANGED <<inCall, nsSeen, verdicts>>
@@ -81,7 +84,13 @@ Event(e) ==
      /\ \/ ResubSend /\ snap = ToSet(e.sub) /\ e.unsub = <<>>
         \/ SenderSend /\ batchS = ToSet(e.sub) /\ batchU = ToSet(e.unsub)
      /\ UNCHANGED <<inCall, nsSeen, verdicts>>
+  \/ /\ e.ev = "sendLost" /\ up /\ silent
+     /\ \/ ResubSend /\ snap = ToSet(e.sub) /\ e.unsub = <<>>
+        \/ SenderSend /\ batchS = ToSet(e.sub) /\ batchU = ToSet(e.unsub)
+     /\ UNCHANGED <<inCall, nsSeen, verdicts>>
   \/ /\ e.ev = "fail" /\ StreamFail /\ UNCHANGED <<inCall, nsSeen, verdicts>>
+  \/ /\ e.ev = "silent" /\ SilentFail /\ UNCHANGED <<inCall, nsSeen, verdicts>>
+  \/ /\ e.ev = "detect" /\ KeepaliveDetect /\ UNCHANGED <<inCall, nsSeen, verdicts>>
   \/ /\ e.ev = "settled" /\ Quiescent /\ ~inCall
      /\ verdicts' = Append(verdicts, [h |-> e.h, ok |-> (srv = deps),
                                       missing |-> deps \ srv, extra |-> srv \ deps, amb |-> amb])
